@@ -2166,6 +2166,7 @@ impl SpeechRules {
         let rule_file = self.pref_manager.borrow().get_rule_file(&self.name).to_path_buf();     // need to create PathBuf to avoid a move/use problem
         if self.rules.is_empty() || !self.rule_files.is_file_up_to_date(&rule_file, should_ignore_file_time) {
             self.rules.clear();
+            self.rule_files.ft.clear();        // if the read fails, nothing counts as loaded: the next call has to try again
             let files_read = self.read_patterns(&rule_file)?;
             self.rule_files.set_files_and_times(files_read);
         }
@@ -2175,6 +2176,7 @@ impl SpeechRules {
 
         if !self.unicode_short_files.borrow().is_file_up_to_date(unicode_pref_files.0, should_ignore_file_time) {
             self.unicode_short.borrow_mut().clear();
+            self.unicode_short_files.borrow_mut().ft.clear();     // see above
             self.unicode_short_files.borrow_mut().set_files_and_times(self.read_unicode(None, true)?);
         }
 
@@ -2182,6 +2184,7 @@ impl SpeechRules {
                             pref_manager.get_definitions_file(self.name != RulesFor::Braille),
                             should_ignore_file_time
         ) {
+            self.definitions_files.borrow_mut().ft.clear();       // see above
             self.definitions_files.borrow_mut().set_files_and_times(read_definitions_file(self.name != RulesFor::Braille)?);
         }
         return Ok( () );
@@ -2583,6 +2586,7 @@ impl<'c, 's:'c, 'r, 'm:'c> SpeechRulesWithContext<'c, 's,'m> {
                 if rules.unicode_full.borrow().is_empty() || !rules.unicode_full_files.borrow().is_file_up_to_date(unicode_pref_files.1, should_ignore_file_time) {
                     info!("*** Loading full unicode {} for char '{}'/{:#06x}", rules.name, ch, ch_as_u32);
                     rules.unicode_full.borrow_mut().clear();
+                    rules.unicode_full_files.borrow_mut().ft.clear();      // if the read fails, the next call has to try again
                     rules.unicode_full_files.borrow_mut().set_files_and_times(rules.read_unicode(None, false)?);
                     info!("# Unicode defs = {}/{}", rules.unicode_short.borrow().len(), rules.unicode_full.borrow().len());
                 }
